@@ -46,6 +46,35 @@ fn one_mask<CS: BbsCiphersuite>(
     if let Err(e) = proof.proof_verify(pk, dm_arg, idx_arg, header, ph) {
         return rep.fail(ck, "proof-verify-failed", format!("proof_verify of a fresh proof: {:?}", e), cj());
     }
+    // the same proof object used for several calls: a refused verification (another key, another header) before
+    // and between honest ones must not change the verdict on the honest statement
+    if label == "all" || label == "none" || label == "random-half" || l <= 3 {
+        let other_pk = BBSplusPublicKey(pk.0 + bls12_381_plus::G2Projective::GENERATOR);
+        let _ = proof.proof_verify(&other_pk, dm_arg, idx_arg, header, ph);
+        let _ = proof.proof_verify(pk, dm_arg, idx_arg, Some(b"another header"), ph);
+        rep.eval(ck, 1);
+        if let Err(e) = proof.proof_verify(pk, dm_arg, idx_arg, header, ph) {
+            return rep.fail(ck, "proof-verify-failed:object-reused", format!("the proof object verifies, is then offered under another key and another header (refused), and no longer verifies for its own statement: {:?}", e), cj());
+        }
+        rep.class("object-reused-after-refusals");
+    }
+    // an absent header / presentation header is the empty octet string (the API documents the default): the
+    // verifier may spell it the other way
+    if header.map(|h| h.is_empty()).unwrap_or(true) || ph.map(|p| p.is_empty()).unwrap_or(true) {
+        fn other<'a>(cur: Option<&'a [u8]>) -> Option<&'a [u8]> {
+            match cur {
+                None => Some(&[][..]),
+                Some(x) if x.is_empty() => None,
+                x => x,
+            }
+        }
+        let (h2, p2) = (other(header), other(ph));
+        rep.eval(ck, 1);
+        if let Err(e) = proof.proof_verify(pk, dm_arg, idx_arg, h2, p2) {
+            return rep.fail(ck, "proof-verify-failed:none-vs-empty", format!("the verifier spells the empty header / presentation header the other way (None <-> Some(b\"\")): {:?}", e), cj());
+        }
+        rep.class("verified-with-the-other-spelling-of-empty");
+    }
     // a verifier on a freshly started thread must agree (per-thread state must not matter)
     if label == "all" || label == "none" || label.ends_with("0b0") || label == "random-half" {
         let pb0 = proof.to_bytes();
@@ -262,7 +291,7 @@ pub fn run(ctx: &Ctx, rep: &Report) -> Meta {
     Meta {
         rule: "honest signature x header x ph x disclosure mask: ALL 2^L masks for L = 0..=6 (quick) / 0..=10 (thorough) under both suites and three header/ph classes, \
                plus class-sampled masks (none, all, first, last, all-but-last, evens, only-22, all-but-22, random half/sparse/dense) for L in {7..257, 1000}; \
-               every L in 7..=72 (quick) / 7..=200 (thorough) with the class masks, the fixed cases under contention, verification repeated on a freshly started thread, half of the cases after a warm-up history, four long-lived threads with 40 (quick) / 300 (thorough) cases each in sequence (each with its class-sampled masks); oracle: proof_gen Ok, proof_verify Ok with exactly msgs|D, equal object and Ok after from_bytes(to_bytes()) and (L <= 40) after serde_json, length = 272 + 32*U; production randomness path; \
+               every L in 7..=72 (quick) / 7..=200 (thorough) with the class masks, the fixed cases under contention, the same proof object verified again after being refused under another key and header, verification repeated on a freshly started thread, half of the cases after a warm-up history, four long-lived threads with 40 (quick) / 300 (thorough) cases each in sequence (each with its class-sampled masks); oracle: proof_gen Ok, proof_verify Ok with exactly msgs|D (also when the verifier spells an empty header / presentation header the other way, None <-> Some(empty)), equal object and Ok after from_bytes(to_bytes()) and (L <= 40) after serde_json, length = 272 + 32*U; production randomness path; \
                non-trivial = (L, mask) outside the three fixture disclosure sets; evaluations = proof verifications + decode checks"
             .into(),
         assumptions: vec!["index lists handed to the library are ascending and duplicate-free (documented precondition)".into()],
